@@ -1,7 +1,7 @@
 ------------------------------ MODULE Gen_C06 ------------------------------
 (* Argument tuples for the signing constructors: option maps incl. empty values and short keys, 0..16 addresses/leases,
    flag words, with/without offline signature, every signing type each constructor supports. *)
-EXTENDS Tables, GenUtil, TLC, Json
+EXTENDS Enc, GenUtil, Json
 CONSTANTS Tier, Seed, OutFile
 Thorough == Tier = "thorough"
 KeyA == << 97 >>  KeyB == << 98 >>  ValX == << 120 >>
@@ -19,6 +19,8 @@ RIVecs ==
   \o Cross2(Secs, << 0, 999999, 1000000, 999999999 >>, LAMBDA s, ns : SB("NewRouterInfo", 7, [ct |-> 4, pairs |-> MapSets[2], naddr |-> 1, pubsec |-> PadTo(s, 8), pubneg |-> FALSE, pubns |-> ns], 64, << >>, 200 + (ns % 97)))
 LSVecs ==
   Cross2(<< << 0, 40 >>, << 1, 64 >>, << 7, 64 >> >>, << 0, 1, 2, 16 >>, LAMBDA t, n : SB("NewLeaseSet", t[1], [ct |-> 0, nleases |-> n], t[2], << >>, 300 + t[1] * 20 + n))
+  \* legacy Destination with a NULL certificate (DSA-SHA1 / ElGamal): cannot be built by a constructor, so it is parsed from this encoding
+  \o SeqMap(LAMBDA n : SB("NewLeaseSet", 0, [ct |-> 0, nleases |-> n, idbase |-> EncIdentity("null", 0, 0, 9), idslot |-> [off |-> BlockLen - SigPubLen(0), len |-> SigPubLen(0)]], 40, << >>, 380 + n), << 0, 1, 16 >>)
   \o << SB("NewLeaseSet", 7, [ct |-> 4, nleases |-> 1], 64, << >>, 390), SB("NewLeaseSet", 11, [ct |-> 4, nleases |-> 1], 64, << >>, 391) >>
 OffVecs ==
   Cross3(<< 7, 11, 8 >>, << 7, 11, 8, 0, 1 >>, << << 0, 0, 0, 1 >>, T4, << 255, 255, 255, 255 >> >>, LAMBDA dst, tst, ex :
